@@ -558,6 +558,7 @@ var subAlias = runlog.Register(&runlog.Sub[aliasCase]{
 		"Model: the plain tree of the main sub-check (model.Node) with the node SHARED BY POINTER between all the addresses it was stored at and all handles: a dictionary stored at two addresses is one dictionary, so a write or removal through any address or handle shows at every address (the statement: 'agrees with a plain tree ... subjected to the same operations', 'a child config is a live view whose writes are visible through the parent'); removing or overwriting it at one address leaves the others. " +
 		"After every step: the generic dump, IsDict/IsArray and CountField of the root and of EVERY pooled config equal the model (frame condition over all addresses), library and model agree on success/failure and on the result of Remove, and the step's address, one fixed address through the root and one through a pooled handle are read through every getter, Has and Child by all equivalent routes (checkRead of the main sub-check). Path/Parent are not read (C15, D14). " +
 		"Non-trivial: a write or removal changed a node that is stored at two or more addresses of the root at that moment. Distinct: hash of the whole case.",
+	Journal: true,
 	Gen: genAliasCase,
 	Run: runAlias,
 })
